@@ -48,6 +48,9 @@ def run(run, args):
                "%d bitwise differences, %d beyond tolerance" % (len(res[0]), len(res[1])))
     run.oblige("specification holds on every implementation output", not res[2], "")
     broken = standard_proof_obligations(run, "C15", THEOREMS)
+    # floating-point level: sum and consecutive ratios in rounded arithmetic, and the binary64 instance of the sum
+    broken += standard_proof_obligations(run, "C15f", ["C15_sum_rounded", "C15_ratio_rounded", "C15_sum_binary64", "C15_float_nonvacuous"],
+                                         allowed_axioms=STD_FLOAT_AXIOMS)
     if res[2]:
         violation(run, {"failing_input": by_id[res[2][0]], "what": "output violates the property's specification (q_holds = false)",
                         "all_failing_ids": res[2][:50]})
